@@ -16,7 +16,7 @@ CHARS = list("a01'\"\\/*#.+-(){}; \n@")
 import re
 
 # '#' need not start the line for the lexer, and no blank is needed before the name ('#0""')
-_DIRECTIVE_FILE = re.compile(r'#[ \t]*(?:line[ \t]*)?\d+[ \t]*"([^"\n]*)"')
+_DIRECTIVE_FILE = re.compile(r'#[ \t]*(?:line[ \t]*)?\d+[ \t]*"((?:\\.|[^"\\\n])*)"')
 
 
 def oracle(out, filename, text=None):
@@ -227,7 +227,7 @@ def run(tier):
     for ex in anchors:
         for fname in ("f.c", ""):
             out = core.parse_outcome(ex, fname)
-            sig = oracle(out, fname)
+            sig = oracle(out, fname, ex)
             if sig is not None:
                 R.fail(sig, {"text": ex, "filename": fname}, out[-1])
     R.set("regression_anchors", len(anchors))
